@@ -50,9 +50,9 @@ Theorem chan_unbuffered_footprint_protected :
 Proof. exact C09_UnbufProofs.unbuf_footprint_protected. Qed.
 Print Assumptions chan_unbuffered_footprint_protected.
 
-(* buffered channel (code as it is): every schedule, every capacity *)
+(* buffered channel, code as it is (fx = false) AND after the F11 repair (fx = true): every schedule, every capacity *)
 Theorem chan_exactly_once_buffered :
-  forall mcap progs now0 s, C09_BufProofs.breach mcap progs now0 s ->
+  forall fx mcap progs now0 s, C09_BufProofs.breach fx mcap progs now0 s ->
     NoDup (C09_Buf.b_popped s ++ map fst (C09_Buf.b_q s)) /\
     (forall v, C09_BufProofs.b_send_ret s v C09_Common.ROk -> In v (C09_Buf.b_popped s ++ map fst (C09_Buf.b_q s))) /\
     NoDup (C09_BufProofs.recv_vals (C09_Buf.b_log s)) /\
@@ -62,29 +62,29 @@ Theorem chan_exactly_once_buffered :
 Proof. exact C09_BufProofs.buf_exactly_once. Qed.
 Print Assumptions chan_exactly_once_buffered.
 Theorem chan_false_not_delivered_buffered :
-  forall mcap progs now0 s v r, C09_BufProofs.breach mcap progs now0 s -> C09_BufProofs.b_send_ret s v r -> r <> C09_Common.ROk ->
+  forall fx mcap progs now0 s v r, C09_BufProofs.breach fx mcap progs now0 s -> C09_BufProofs.b_send_ret s v r -> r <> C09_Common.ROk ->
     ~ In v (C09_Buf.b_pushed s) /\ ~ In v (C09_Buf.b_popped s) /\ ~ In v (C09_BufProofs.recv_vals (C09_Buf.b_log s)).
 Proof. exact C09_BufProofs.buf_false_not_delivered. Qed.
 Print Assumptions chan_false_not_delivered_buffered.
 Theorem chan_no_invention_buffered :
-  forall mcap progs now0 s v, C09_BufProofs.breach mcap progs now0 s ->
+  forall fx mcap progs now0 s v, C09_BufProofs.breach fx mcap progs now0 s ->
     In v (C09_BufProofs.recv_vals (C09_Buf.b_log s)) \/ In v (C09_Buf.b_popped s) ->
     C09_BufProofs.b_offered s v /\ In v (C09_Buf.b_pushed s).
 Proof. exact C09_BufProofs.buf_no_invention. Qed.
 Print Assumptions chan_no_invention_buffered.
 Theorem chan_fifo_per_sender_buffered :
-  forall mcap progs now0 s, C09_BufProofs.breach mcap progs now0 s ->
+  forall fx mcap progs now0 s, C09_BufProofs.breach fx mcap progs now0 s ->
     C09_Buf.b_pushed s = C09_Buf.b_popped s ++ map fst (C09_Buf.b_q s) /\
     C09_BufProofs.sender_sorted (C09_Buf.b_pushed s) /\ C09_BufProofs.sender_sorted (C09_Buf.b_popped s).
 Proof. exact C09_BufProofs.buf_fifo. Qed.
 Print Assumptions chan_fifo_per_sender_buffered.
 Theorem chan_false_closed_only_after_close_buffered :
-  forall mcap progs now0 s e, C09_BufProofs.breach mcap progs now0 s -> In e (C09_Buf.b_log s) ->
+  forall fx mcap progs now0 s e, C09_BufProofs.breach fx mcap progs now0 s -> In e (C09_Buf.b_log s) ->
     C09_Common.e_r e = C09_Common.RClosed -> C09_Buf.b_closed s = true.
 Proof. exact C09_BufProofs.buf_closed_reason. Qed.
 Print Assumptions chan_false_closed_only_after_close_buffered.
 Theorem chan_drain_after_close :
-  forall mcap progs now0 s e, C09_BufProofs.breach mcap progs now0 s -> In e (C09_Buf.b_log s) ->
+  forall fx mcap progs now0 s e, C09_BufProofs.breach fx mcap progs now0 s -> In e (C09_Buf.b_log s) ->
     C09_Common.e_k e = C09_Common.KRecv -> C09_Common.e_r e = C09_Common.RClosed ->
     firstn (C09_Common.e_aux e) (C09_Buf.b_pushed s) = firstn (C09_Common.e_aux e) (C09_Buf.b_popped s).
 Proof. exact C09_BufProofs.buf_drain_after_close. Qed.
